@@ -108,6 +108,9 @@ def parse_embedded_scalar(scalar, version=LATEST_VER):
     elif scalar == MARKER_STR:
         return MARKER
     elif scalar == NA_STR:
+        if pre_3_0(version):
+            raise ValueError('NA is not supported in Haystack version %s' \
+                             % version)
         return NA
     elif (scalar == REMOVE2_STR) or (scalar == REMOVE3_STR):
         # Strictly speaking: x: is a HS 2.0 Remove, and -: is a 3.0 Remove
@@ -145,6 +148,9 @@ def parse_embedded_scalar(scalar, version=LATEST_VER):
 
     # Is it a xstr?
     if scalar.startswith('x:'):
+        if pre_3_0(version):
+            raise ValueError('XStr is not supported in Haystack version %s' \
+                             % version)
         return XStr(*scalar[2:].split(':', 1))
 
     # Is it a reference?
